@@ -168,6 +168,18 @@ main(void)
 				free(in);
 				print_l2();
 			}
+		} else if (hc_is("seek", 1)) {
+			/* white-box jump to block nb > 0: the state streaming 16*nb bytes produces (see Driver/Aes.lean) */
+			uint64_t nb = strtoull(hc_tok[1], NULL, 10);
+
+			if (S == NULL || nb == 0)
+				printf("skip");
+			else {
+				S->bytectr = 16 * nb;
+				be64enc(&S->pblk[8], nb - 1);
+				printf("ok");
+				print_l2();
+			}
 		} else if (hc_is("streamzero", 1)) {
 			if (S == NULL)
 				printf("skip");
